@@ -135,10 +135,9 @@ class EmissionModel(SimpleForwardModel):
 
     def evaluate_emission_ktables(self, wngrid, return_contrib):
 
-        from taurex.util.util import compute_dz
         from taurex.contributions import AbsorptionContribution
 
-        dz = compute_dz(self.altitudeProfile)
+        dz = self.deltaz
         total_layers = self.nLayers
         density = self.densityProfile
         wngrid_size = wngrid.shape[0]
